@@ -396,7 +396,7 @@ func TestRace(t *testing.T) {
 		Gen:  genRace, Run: runRace,
 		// the schedule is not part of the case: a replay (and, after a first failure, every shrink
 		// candidate) is run up to Retries times and fails if any run fails
-		Retries: 60,
+		Retries: 60, HangAfter: 60 * time.Second,
 	})
 }
 
